@@ -13,7 +13,7 @@
    argument: the evaluator's `len - 1` panics (debug) or wraps (release) below zero, the machine
    computes in Z behind the same guards. *)
 From Coq Require Import ZArith List String Bool Lia.
-From MV Require Import Ast Eval Scalar Machine Equiv Prims EquivTac.
+From MV Require Import Ast Eval Scalar Machine EquivDefs Prims EquivTac.
 From MV.Gen Require Import AstGen.
 Import ListNotations.
 Open Scope string_scope.
@@ -72,18 +72,6 @@ Section EquivElem.
   Lemma set_len_equiv v n s :
     runm lib__MiniVec__set_len_ast [VObj v; VInt n] s = lift_m (set_len v n) vunit s.
   Proof. unfold runm. evm. cbv [bind ret lift_m vunit]. sym. Qed.
-
-  Lemma data_equiv v s :
-    runm lib__MiniVec__data_ast [VObj v] s = lift_m (data cfg v) eptr_val s.
-  Proof. unfold runm. evm. cbv [data bind ret lift_m vunit eptr_val lift_opt data_offset panic]. sym. Qed.
-
-  Lemma as_ptr_equiv v s :
-    runm lib__MiniVec__as_ptr_ast [VObj v] s = lift_m (as_ptr cfg v) eptr_val s.
-  Proof. unfold runm. evm. cbv [as_ptr bind ret lift_m vunit eptr_val]. sym. Qed.
-
-  Lemma as_mut_ptr_equiv v s :
-    runm lib__MiniVec__as_mut_ptr_ast [VObj v] s = lift_m (as_ptr cfg v) eptr_val s.
-  Proof. unfold runm. evm. cbv [as_ptr bind ret lift_m vunit eptr_val]. sym. Qed.
 
   Lemma truncate_equiv v n s :
     len_ok v s -> 0 <= n < W64 ->
